@@ -187,4 +187,14 @@ Proof.
   split; [repeat constructor; vm_compute; discriminate|].
   vm_compute. repeat split; reflexivity.
 Qed.
+
+(* the second defect of the pinned tree (repaired by fixes/C02-start-snapshots-target-forwarder.diff): the pinned Start lets
+   each goroutine read b.targetForwarder when it first runs.  Witness: the source end is at EOF; direction 0 runs its two
+   steps (read EOF, closeBridge) before direction 1 has run at all — the bridge is closed (targetForwarder = nil) while
+   direction 1 has not yet picked up its reader, so the pinned code calls Read on a nil interface (process crash).  The model
+   (and the repaired code) fix both ends of a direction before the goroutines start. *)
+Lemma pinned_start_pick_after_close_refuted :
+  exists sched, let s := bridge_run Sliced 1048576 None [] [] [{| r_data := [170]; r_end := RNone |}] [] sched in
+    s_closed (fst s) = true /\ nth_error (snd s) 1 = Some (b_init true [{| r_data := [170]; r_end := RNone |}] []).
+Proof. exists [0; 0]%nat. vm_compute. split; reflexivity. Qed.
 Close Scope N_scope.
